@@ -217,7 +217,7 @@ def obligations(tier):
     turns, chunk = (1000, 100) if tier == "quick" else (5000, 100)
     obs = []
     for w in GRID:
-        obs.append(Ob("wrap/%s" % (repr(w).replace(".", "_")), A.run_obligation(ob_wrap, None, 60000), params=dict(wrap=w, turns=turns, chunk=chunk, xcheck=(tier == "thorough"), xcheck_max=6),
+        obs.append(Ob("wrap/%s" % (repr(w).replace(".", "_")), A.run_obligation(ob_wrap, None, 60000, alts=[(None, 180000)]), params=dict(wrap=w, turns=turns, chunk=chunk, xcheck=(tier == "thorough"), xcheck_max=6),
                       kind="e2", replay=replay, budget=600 if tier == "quick" else 3000,
                       bounds=dict(wrap=w, angle="unbounded real (range, delta, wrap 0)",
                                   whole_turns="|angle| <= %d full turns (%d * |2*wrap|), in chunks of %d turns" % (turns, turns, chunk))))
